@@ -37,6 +37,7 @@ type fileData struct {
 	runOnceFileRecord
 	modeOverride    *hackpadfs.FileMode
 	modTimeOverride time.Time
+	unsaved         bool // the store rejected the last save: it may hold less than this handle does
 
 	path string // path is stored as the "key", keeping it here is for generating hackpadfs.FileInfo's
 	fs   *FS
@@ -178,7 +179,9 @@ func (fs *FS) newFile(path string, flag int, mode hackpadfs.FileMode) *file {
 }
 
 func (f *fileData) save() error {
-	return f.fs.setFile(f.path, f)
+	err := f.fs.setFile(f.path, f)
+	f.unsaved = err != nil
+	return err
 }
 
 func (f *fileData) info() hackpadfs.FileInfo {
@@ -356,8 +359,11 @@ func (f *file) Truncate(size int64) error {
 	switch {
 	case size < 0:
 		return &hackpadfs.PathError{Op: "truncate", Path: f.path, Err: hackpadfs.ErrInvalid}
-	case size == length:
+	case size == length && !f.unsaved:
 		return nil
+	case size == length:
+		// nothing to resize, but the store rejected this handle's last save: the blob already has
+		// this length while the store does not, so a retry must not be taken for a no-op
 	case size > length:
 		data, err := f.Data()
 		if err != nil {
